@@ -3041,6 +3041,11 @@ def distributed_shampoo(
     Returns:
       New optimizer states after computing the preconditioner.
     """
+    if not statistics:
+      # No parameter is preconditioned: there is nothing to compute (and
+      # max_size is 0, which the quantization helpers cannot handle).
+      return states
+
     num_devices = lax.psum(1, batch_axis_name)
     num_statistics = len(statistics)
     quantized_dtype = quantized_dtype_for_second_moment_statistics_buffers()
